@@ -122,6 +122,7 @@ void h_new (void)
 		OBL (g_alloc_failed || g_sem_other_error, "p_semaphore_new fails only on allocation failure or a native error other than EINTR/EEXIST/ENOENT: OPEN and CREATE succeed whether or not the name exists");
 		OBL (!g_hdl_open && g_sem_opens >= g_sem_closes, "failure: no native handle stays open");
 		OBL (g_allocs == g_frees, "failure: nothing stays allocated");
+		OBL (g_sem_unlinks <= (mode == P_SEM_ACCESS_CREATE ? 1u : 0u), "failure: no unlink beyond the one reset-unlink of CREATE mode");
 		CANARY ("new failed");
 		return;
 	}
@@ -155,6 +156,7 @@ void h_new_race (void)
 	PSemaphore *s = p_semaphore_new (name, init_val, mode, NULL);
 	if (s == NULL) {
 		OBL (!g_hdl_open && g_allocs == g_frees, "failure under interference: no native handle, nothing allocated");
+		OBL (g_sem_unlinks <= (mode == P_SEM_ACCESS_CREATE ? 1u : 0u) && g_sem_creates == 0, "a failing call removes no name it did not create: at most the one reset-unlink of CREATE mode, never a counter somebody else has created since");
 		CANARY ("lost the race / failed");
 		return;
 	}
